@@ -3,6 +3,8 @@ use vkit::engine::{drive_main, Args};
 pub mod c01;
 pub mod c02;
 pub mod c04;
+pub mod c05;
+pub mod c07;
 pub mod c08;
 pub mod c09;
 pub mod c10;
@@ -13,6 +15,7 @@ pub mod c16;
 pub mod c21;
 pub mod dbg;
 pub mod c22;
+pub mod c24;
 pub mod c27;
 pub mod c31;
 pub mod c32;
@@ -26,6 +29,8 @@ pub fn dispatch(id: &str, args: &Args) -> i32 {
         "C02" => drive_main(&c02::C02, args),
         "C17" => drive_main(&c02::C17, args),
         "C04" => drive_main(&c04::C04, args),
+        "C05" => drive_main(&c05::C05, args),
+        "C07" => drive_main(&c07::C07, args),
         "C08" => drive_main(&c08::C08, args),
         "C09" => drive_main(&c09::C09, args),
         "C10" => drive_main(&c10::C10, args),
@@ -36,6 +41,7 @@ pub fn dispatch(id: &str, args: &Args) -> i32 {
         "C16" => drive_main(&c16::C16, args),
         "C21" => drive_main(&c21::C21, args),
         "C22" => drive_main(&c22::C22, args),
+        "C24" => drive_main(&c24::C24, args),
         "C27" => drive_main(&c27::C27, args),
         "C31" => drive_main(&c31::C31, args),
         "C32" => drive_main(&c32::C32, args),
